@@ -205,8 +205,10 @@ def short_callee(func):
     return "::".join(segs[-2:]) if len(segs) >= 2 else (segs[0] if segs else s)
 
 
-INT_INTRINSIC = re.compile(r"core::num::<impl ([iu](?:8|16|32|64|size))>::"
-                           r"(saturating_add|saturating_sub|saturating_mul|wrapping_add|wrapping_sub|wrapping_mul|min|max)$")
+INT_INTRINSIC = re.compile(r"core::num::<impl ([iu](?:8|16|32|64|128|size))>::"
+                           r"(saturating_add|saturating_sub|saturating_mul|wrapping_add|wrapping_sub|wrapping_mul|min|max|"
+                           r"unsigned_abs|div_euclid|rem_euclid)$")
+TRY_FROM_INT = re.compile(r"<([iu](?:8|16|32|64|128|size)) as TryFrom<([iu](?:8|16|32|64|128|size))>>::try_from$")
 IDENTITY_CALLS = re.compile(
     r"(as Deref>::deref$|as DerefMut>::deref_mut$|as IntoFuture>::into_future$|Pin::<.*>::new_unchecked$|"
     r"Pin::<.*>::new$|as AsRef<.*>>::as_ref$|as Borrow<.*>>::borrow$|as Clone>::clone$|"
@@ -389,6 +391,7 @@ class Evaluation:
         self.node_env_out = {}
         self.order = []
         self.cut_back_edges = 0
+        self.cut_conditions = []   # reach conditions of back edges that were cut (unwinding assertions)
         self.opaque_statements = 0
         self.sym_cache = {}
         self.site_counter = {}
@@ -665,13 +668,61 @@ class Evaluation:
             return v, ty
         return Opaque("raw:" + op[1][:80]), ""
 
+    def try_from_int(self, func, arg, site):
+        """<T as TryFrom<U>>::try_from on machine integers: Ok(value) iff the value is representable"""
+        m = TRY_FROM_INT.search(func)
+        to, frm = m.group(1), m.group(2)
+        x = self.to_term(arg, frm)
+        if x is None or not z3.is_bv(x):
+            return None
+        fb, tb = INT_BITS[frm], INT_BITS[to]
+        fs, ts = frm in SIGNED, to in SIGNED
+        lo = -(1 << (tb - 1)) if ts else 0
+        hi = (1 << (tb - 1)) - 1 if ts else (1 << tb) - 1
+        if fs:
+            conds = [x >= z3.BitVecVal(max(lo, -(1 << (fb - 1))), fb)]
+            if hi < (1 << (fb - 1)) - 1:
+                conds.append(x <= z3.BitVecVal(hi, fb))
+        else:
+            conds = [z3.ULE(x, z3.BitVecVal(hi, fb))] if hi < (1 << fb) - 1 else []
+        ok = z3.And(conds) if conds else z3.BoolVal(True)
+        val = z3.Extract(tb - 1, 0, x) if tb <= fb else (z3.SignExt(tb - fb, x) if fs else z3.ZeroExt(tb - fb, x))
+        return Phi(site, [(ok, Agg("Result::Ok", [val])), (z3.Not(ok), Agg("Result::Err", [Opaque(site + ":Err.0")]))])
+
+    def result_ok(self, v):
+        """Result::ok: Ok(v) -> Some(v), Err(_) -> None"""
+        if isinstance(v, Agg) and v.tag.endswith("Ok"):
+            return Agg("Option::Some", [v.fields[0]] if v.fields else [])
+        if isinstance(v, Agg) and v.tag.endswith("Err"):
+            return Agg("Option::None", [])
+        if isinstance(v, Phi):
+            alts = [(c, self.result_ok(x)) for c, x in v.alts]
+            if all(a is not None for _, a in alts):
+                return Phi(v.label + ".ok", alts)
+        return None
+
     def int_intrinsic(self, func, args):
-        """core::num::<impl T>::{saturating,wrapping}_{add,sub,mul} / min / max on machine integers"""
+        """core::num::<impl T>::{saturating,wrapping}_{add,sub,mul} / min / max / unsigned_abs /
+        div_euclid / rem_euclid on machine integers"""
         m = INT_INTRINSIC.search(func)
         ty, name = m.group(1), m.group(2)
+        if name == "unsigned_abs":
+            x = self.to_term(args[0], ty)
+            if x is None or not z3.is_bv(x) or len(args) != 1:
+                return None
+            return z3.If(x < 0, -x, x) if ty in SIGNED else x
+        if len(args) != 2:
+            return None
         x, y = self.to_term(args[0], ty), self.to_term(args[1], ty)
         if x is None or y is None or not z3.is_bv(x) or not z3.is_bv(y) or x.size() != y.size():
             return None
+        if name in ("div_euclid", "rem_euclid"):
+            if ty not in SIGNED:
+                return z3.UDiv(x, y) if name == "div_euclid" else z3.URem(x, y)
+            q, r_ = x / y, z3.SRem(x, y)             # bvsdiv / bvsrem: truncating, like Rust's `/` and `%`
+            if name == "rem_euclid":
+                return z3.If(r_ < 0, z3.If(y < 0, r_ - y, r_ + y), r_)
+            return z3.If(r_ < 0, z3.If(y > 0, q - 1, q + 1), q)
         bits, signed = INT_BITS[ty], ty in SIGNED
         ext = (lambda t: z3.SignExt(bits, t)) if signed else (lambda t: z3.ZeroExt(bits, t))
         hi = (1 << (bits - 1)) - 1 if signed else (1 << bits) - 1
@@ -761,7 +812,9 @@ class Evaluation:
     def discriminant(self, v, ty):
         if isinstance(v, Agg):
             tag = v.tag
-            known = {"Some": 1, "None": 0, "Ok": 0, "Err": 1, "Ready": 0, "Pending": 1}
+            # variants of enums declared outside the repository (std, peg_runtime), by declaration order
+            known = {"Some": 1, "None": 0, "Ok": 0, "Err": 1, "Ready": 0, "Pending": 1,
+                     "Matched": 0, "Failed": 1, "Continue": 0, "Break": 1}
             last = re.sub(r"<.*?>", "", tag).split("::")[-1]
             if last in known:
                 return z3.BitVecVal(known[last], 64)
@@ -992,6 +1045,8 @@ class Evaluation:
             if kind == "goto":
                 for label, nxt in succs.items():
                     edges.append((nxt, reach, env))
+                if not succs and any((bb, tgt) in self.back_edges for (_l, tgt) in t.get("targets", [])):
+                    self.cut_conditions.append(reach)
             elif kind == "switch":
                 dv, dty = self.read_operand(env, t["discr"])
                 term = self.to_term(dv, dty)
@@ -1023,6 +1078,8 @@ class Evaluation:
                             nxt = n2
                             break
                     if nxt is None:
+                        if (bb, tgt) in self.back_edges:
+                            self.cut_conditions.append(z3.And(reach, conds[label]))   # unrolling bound reached here
                         continue
                     per_target.setdefault(nxt, []).append(conds[label])
                 for nxt, cs in per_target.items():
@@ -1066,8 +1123,12 @@ class Evaluation:
                         res = Opaque(site)
                 elif re.search(r"as (?:std::ops::)?Try>::branch$", func) and args:
                     res = Opaque(f"try({describe(args[0])})")
-                elif INT_INTRINSIC.search(func) and len(args) == 2 and self.int_intrinsic(func, args) is not None:
+                elif INT_INTRINSIC.search(func) and len(args) in (1, 2) and self.int_intrinsic(func, args) is not None:
                     res = self.int_intrinsic(func, args)
+                elif TRY_FROM_INT.search(func) and len(args) == 1 and self.try_from_int(func, args[0], site) is not None:
+                    res = self.try_from_int(func, args[0], site)
+                elif re.search(r"Result::<.*>::ok$", func) and len(args) == 1 and self.result_ok(args[0]) is not None:
+                    res = self.result_ok(args[0])
                 elif re.search(r"Future>::poll$", func) and args:
                     m = re.search(r"\{async fn body of ([^}]*?)\(\)\}", func)
                     if m:
